@@ -182,7 +182,10 @@ func checkC17(c *Ctx, r *Report) {
 			q := &Cut{Fn: f, From: dels, Target: func(in ssa.Instruction) bool { _, ok := in.(*ssa.Return); return ok }, Sep: rmPrev, EdgeCut: edgeNil(rederive, false)}
 			r2.mustPass(f, rcK+": deleting the entry withdraws the recorded observation (except on the two tabled re-derivation error edges)", q, 1)
 			// nothing is removed for a connection without entry
-			r2.guard(f, "removeExternalAddrsUnlocked", findInstrs(f, callPred(rmK)), "entry present", edgeBool(func(v ssa.Value) bool { e, ok := v.(*ssa.Extract); return ok && lk != nil && e.Tuple == lk && e.Index == 1 }, true), nil)
+			r2.guard(f, "removeExternalAddrsUnlocked", findInstrs(f, callPred(rmK)), "entry present", edgeBool(func(v ssa.Value) bool {
+				e, ok := v.(*ssa.Extract)
+				return ok && lk != nil && e.Tuple == lk && e.Index == 1
+			}, true), nil)
 		}
 	}
 	if f := r2.need("(*" + oaP + ".Manager).Start"); f != nil {
